@@ -411,6 +411,16 @@ func streamChan(o *Out, r *rand.Rand, n int, thorough bool) {
 		{"recv-ok-open", "c = make(chan int64, 1)\nc <- 5\nv, ok = <-c\n[v, ok]", "[5,true]"},
 		{"recv-ok-closed-keeps-v", "c = make(chan int64, 1)\nclose(c)\nv = \"keep\"\nv, ok = <-c\n[v, ok]", "[keep,false]"},
 		{"for-in-ends-on-close", "c = make(chan int64, 3)\nc <- 1\nc <- 2\nclose(c)\ns = 0\nfor x in c {\ns += x\n}\ns", "3"},
+		// goroutines started by goroutines keep running after their starter has returned
+		{"nested-go-launcher", "jobs = make(chan int64)\nres = make(chan int64)\nfunc worker() {\nfor j in jobs {\nres <- j * j\n}\n}\nfunc start(n) {\nfor i = 0; i < n; i++ {\ngo worker()\n}\n}\ngo start(3)\ngo func() {\nfor i = 1; i <= 20; i++ {\njobs <- i\n}\nclose(jobs)\n}()\nt = 0\nfor k = 0; k < 20; k++ {\nt += <-res\n}\nt", "2870"},
+		{"nested-go-helper", "out = make(chan int64, 1)\ngo func() {\ngo func() {\nfor i = 1; i <= 40; i++ {\nout <- i\n}\nclose(out)\n}()\n}()\nt = 0\nfor v in out {\nt += v\n}\nt", "820"},
+		{"nested-go-dispatcher", "inp = make(chan int64)\nres = make(chan int64)\nfunc handle(v) {\nres <- v + 1000\n}\ngo func() {\nfor v in inp {\ngo handle(v)\n}\n}()\ngo func() {\nfor i = 0; i < 10; i++ {\ninp <- i\n}\nclose(inp)\n}()\nt = 0\nfor k = 0; k < 10; k++ {\nt += <-res\n}\nt", "10045"},
+		{"nested-go-three-deep", "c = make(chan int64)\ngo func() {\ngo func() {\ngo func() {\nfor i = 0; i < 5; i++ {\nc <- i\n}\nclose(c)\n}()\n}()\n}()\nr = []\nfor v in c {\nr += v\n}\nr", "[0,1,2,3,4]"},
+		// nil is an item like any other on an interface channel, however it is received
+		{"iface-nil-items-for-in", "c = make(chan interface, 6)\nfor v in [1, nil, 2, nil] {\nc <- v\n}\nclose(c)\nr = []\nfor x in c {\nif x == nil {\nr += \"none\"\n} else {\nr += x * 10\n}\n}\nr", "[10,none,20,none]"},
+		{"iface-nil-items-recv", "c = make(chan interface, 6)\nfor v in [1, nil, 2] {\nc <- v\n}\nr = []\nfor i = 0; i < 3; i++ {\nx = <-c\nif x == nil {\nr += \"none\"\n} else {\nr += x * 10\n}\n}\nr", "[10,none,20]"},
+		{"iface-nil-items-pipeline", "a = make(chan interface)\nb = make(chan interface)\ngo func() {\nfor v in [1, nil, 2, 3, nil, 4] {\na <- v\n}\nclose(a)\n}()\ngo func() {\nfor x in a {\nif x == nil {\nb <- nil\n} else {\nb <- x * 10\n}\n}\nclose(b)\n}()\nr = []\nfor y in b {\nr += (y == nil ? \"none\" : y)\n}\nr", "[10,none,20,30,none,40]"},
+		{"iface-nil-items-recv-ok", "c = make(chan interface, 2)\nc <- nil\nclose(c)\nv = 5\nv, ok = <-c\nw = 6\nw, ok2 = <-c\n[v == nil, ok, w, ok2]", "[true,true,6,false]"},
 		{"unbuffered-handoff", "c = make(chan int64)\nd = make(chan int64)\ngo func() {\nfor x in c {\nd <- x + 1\n}\nclose(d)\n}()\ngo func() {\nc <- 1\nc <- 2\nclose(c)\n}()\nr = []\nfor y in d {\nr += y\n}\nr", "[2,3]"},
 	}
 	for _, t := range templates {
